@@ -62,6 +62,7 @@ def to_msf(names, rows, width=60, protein=True, gapchar=".", groups_of_ten=False
 
 
 def write(path, text):
-    with open(path, "w") as f:
+    # latin-1: one byte per character, so that characters 128..255 become the stray non-ASCII bytes some cases plant
+    with open(path, "w", encoding="latin-1") as f:
         f.write(text)
     return path
